@@ -28,8 +28,8 @@ ASSUMPTIONS = [
     "a back-end gate call with negated first parameter is the inverse of the call (Gate.apply's dagger rule); "
     "validated per natively applied gate class and back end on every run",
     "shots = 1, hbar = 2; TDM programs, batching and the TensorFlow back end are outside the model",
-    "theorem concat_compositional_partial assumes a non-bosonic back end (bosonic: known finding) and structural "
-    "well-formedness of the programs (open measured dependencies refer to subsystems of the first program's register)",
+    "theorem concat_compositional assumes structural well-formedness of the programs (open measured dependencies refer "
+    "to subsystems of the first program's register) and, on the bosonic engine, a non-empty first program",
 ]
 TRUSTED = ["modelled: BaseEngine._run / LocalEngine._run_program / BosonicBackend.run_prog prologue / reset, "
            "Operation.apply / Measurement.apply / Gate.apply / Gate.decompose, Program.compile (simulator compilers), "
@@ -50,7 +50,7 @@ def gen_session(rng, backend, cross=False):
     n = rng.randint(2 if backend == "bosonic" else 1, 3 if backend == "fock" else 4)
     nseg = rng.choice([1, 2, 2, 2, 3])
     use_free = rng.random() < 0.3
-    allow_newdel = backend != "bosonic" and rng.random() < 0.3
+    allow_newdel = rng.random() < 0.3     # (bosonic: only in later segments, see below)
     # 25% of the sessions contain measurements without `select` (random outcomes, recorded and replayed into the
     # model); their final states are not compared across patterns, everything else is
     randomised = rng.random() < 0.25
@@ -70,7 +70,7 @@ def gen_session(rng, backend, cross=False):
         for _ in range(L):
             live = [i for i, a in enumerate(active) if a]
             kinds = ["g1"] * 4 + ["prep", "chan", "meas", "meas"] + (["g2"] * 3 if len(live) >= 2 else [])
-            if allow_newdel:
+            if allow_newdel and not (backend == "bosonic" and j == 0):
                 kinds += ["new"] if len(active) < (4 if backend == "fock" else 5) else []
                 kinds += ["del"] if len(live) >= 2 else []
             kind = rng.choice(kinds)
@@ -165,6 +165,16 @@ def gen_evolving(rng, backend):
     if rng.random() < 0.4:
         segs.append([g(rng.choice(live))])
     return dict(backend=backend, n=n, opts=OPTS[backend], segs=segs, args={}, succ=[False] + [True] * (len(segs) - 1))
+
+
+def gen_bosonic_nongauss(rng):
+    """bosonic engine, non-Gaussian preparation in a LATER program: refused with NotImplementedError (the
+    initialisation pass that handles such preparations only runs for the first program) -- known finding"""
+    n = rng.randint(2, 3)
+    m = rng.randrange(n)
+    return dict(backend="bosonic", n=n, opts={}, args={}, succ=[False, rng.random() < 0.5],
+                segs=[[dict(cls="Dgate", regs=[rng.randrange(n)], pars=[0.25, 0.5])],
+                      [dict(cls=rng.choice(["Fock", "Catstate"]), regs=[m], pars=[1]), dict(cls="Rgate", regs=[m], pars=[0.375])]])
 
 
 def gen_history(rng, backend):
@@ -483,10 +493,8 @@ def one_session(ctx, sf, spec, reqs, pending, kinds=("list", "seq", "cat", "rese
     ne = sum(1 for s in spec["segs"] if s)
 
     def sig_for(a, b):
-        if "cat" in (a, b) and backend == "bosonic" and ne >= 2:
-            return "bosonic-segment-reinit"
-        if backend == "bosonic" and "reset" in (a, b) and ne >= 2:
-            return "bosonic-segment-reinit"   # run([p0]); reset; run(list): same loss in both, but p0 is re-run
+        if backend == "bosonic" and "cat" in (a, b) and later_nongauss:
+            return "bosonic-nongaussian-later-segment"
         return f"compositional:{a}-vs-{b}:{backend}"
 
     # a post-selection on an outcome of probability zero (e.g. x = 0 on |1>) makes the state NaN in every pattern
@@ -494,6 +502,7 @@ def one_session(ctx, sf, spec, reqs, pending, kinds=("list", "seq", "cat", "rese
             and any(r["err"] is None for r in results.values()):
         ctx.tally("oracle:NaN state in all patterns (zero-probability post-selection)")
         return
+    later_nongauss = any(o["cls"] in ("Fock", "Catstate") for sg in spec["segs"][1:] for o in sg)
     ref = "cat" if "cat" in results else "list"
     for pat in results:
         if pat == ref:
@@ -913,6 +922,8 @@ def run(ctx, sf):
     for k in range(n):
         for backend in ("gaussian", "fock", "bosonic"):
             spec = gen_session(rng, backend, cross=(k % 4 == 3))
+            if k % 8 == 5 and backend == "bosonic":
+                spec = gen_bosonic_nongauss(rng)
             if k % 6 == 5 and backend != "bosonic":
                 spec = gen_mismatch(rng, backend)
             if k % 6 == 2 and backend != "bosonic":
